@@ -4,15 +4,17 @@ Variant families: 'T' changes something a dependent's output depends on (a retur
 declaration type downstream); 'S' changes only the module itself.
 """
 
+# VOWN is inferred from the module's own function: the module's own output depends on its own symbol table entries
 A = {
-    'v0': 'def fa() -> int:\n\treturn 1\n\nVA: int = 1\n',
-    'vT': "def fa() -> str:\n\treturn 's'\n\nVA: int = 1\n",
-    'vS': 'def fa() -> int:\n\treturn 2\n\nVA: int = 1\n',
+    'v0': 'def fa() -> int:\n\treturn 1\n\nVA: int = 1\nVOWN = fa()\n\ndef use_own() -> int:\n\tv = fa()\n\treturn 1\n',
+    'vT': "def fa() -> str:\n\treturn 's'\n\nVA: int = 1\nVOWN = fa()\n\ndef use_own() -> int:\n\tv = fa()\n\treturn 1\n",
+    'vS': 'def fa() -> int:\n\treturn 2\n\nVA: int = 1\nVOWN = fa()\n\ndef use_own() -> int:\n\tv = fa()\n\treturn 1\n',
 }
 B = {
     'v0': 'from proj.a import fa\n\nVB = fa()\n\ndef fb() -> int:\n\treturn 1\n',
     'vS': 'from proj.a import fa\n\nVB = fa()\n\ndef fb() -> int:\n\treturn 2\n',
 }
+# module names are chosen so that one dotted path is a string prefix of another (proj.b / proj.bb, proj.a / proj.ab)
 C = {
     'v0': 'from proj.b import VB\n\nVC = VB\n',
     'vS': 'from proj.b import VB\n\nVC = VB\nVD: int = 0\n',
@@ -21,7 +23,7 @@ C2 = {   # second dependent of a (diamond)
     'v0': 'from proj.a import fa\n\nVC2 = fa()\n',
 }
 D = {
-    'v0': 'from proj.b import VB\nfrom proj.c2 import VC2\n\nVE = VB\nVF = VC2\n',
+    'v0': 'from proj.b import VB\nfrom proj.ab import VC2\n\nVE = VB\nVF = VC2\n',
 }
 
 WIDE = '\ndef wide(p0: int, p1: str, p2: float, p3: bool, p4: int, p5: str, p6: float, p7: bool, p8: int, p9: str, p10: int) -> float:\n\treturn p2\n'
@@ -29,15 +31,36 @@ USE_WIDE = "\nVW = wide(1, 'a', 1.5, True, 2, 'b', 2.5, False, 3, 'c', 4)\n"
 A = {k: v + WIDE for k, v in A.items()}
 B = {k: v.replace('from proj.a import fa', 'from proj.a import fa, wide') + USE_WIDE for k, v in B.items()}
 
+# chain3p: the same chain with the names rotated so that the *top* module's path (proj.b) is a string prefix of the
+# *base* module's path (proj.bb): bb <- a <- b
+AP = {k: v for k, v in A.items()}
+BP = {k: v.replace('from proj.a import', 'from proj.bb import') for k, v in B.items()}
+CP = {k: v.replace('from proj.b import', 'from proj.a import') for k, v in C.items()}
+
+# prefix3: class/method based chain node -> visitor -> node_types; 'proj.node' is a string prefix of 'proj.node_types';
+# the head of the chain is listed (and therefore loaded) first, the module at its base is transpiled last
+P3_NODE = {'v0': 'from proj.visitor import Visitor\n\nclass Node:\n\tdef accept(self, visitor: Visitor) -> None:\n\t\tprint(visitor)\n'}
+P3_VISITOR = {'v0': 'from proj.node_types import Kind\n\nclass Visitor:\n\tdef visit(self, kind: Kind) -> None:\n\t\tkind.show()\n'}
+P3_TYPES = {
+    'v0': 'class Kind:\n\tdef code(self) -> int:\n\t\treturn 1\n\n\tdef show(self) -> None:\n\t\tv = self.code()\n\t\tprint(v)\n',
+    'vT': "class Kind:\n\tdef code(self) -> str:\n\t\treturn 'a'\n\n\tdef show(self) -> None:\n\t\tv = self.code()\n\t\tprint(v)\n",
+    'vS': 'class Kind:\n\tdef code(self) -> int:\n\t\treturn 2\n\n\tdef show(self) -> None:\n\t\tv = self.code()\n\t\tprint(v)\n',
+}
+INPUT_GLOBS = {'prefix3': ['proj/node.py', 'proj/visitor.py', 'proj/node_types.py']}
+
 GRAPHS = {
     'pair': {'proj/a.py': A, 'proj/b.py': B},
-    'chain3': {'proj/a.py': A, 'proj/b.py': B, 'proj/c.py': C},
-    'diamond4': {'proj/a.py': A, 'proj/b.py': B, 'proj/c2.py': C2, 'proj/d.py': D},
+    'chain3': {'proj/a.py': A, 'proj/b.py': B, 'proj/bb.py': C},
+    'diamond4': {'proj/a.py': A, 'proj/b.py': B, 'proj/ab.py': C2, 'proj/d.py': D},
+    'chain3p': {'proj/bb.py': AP, 'proj/a.py': BP, 'proj/b.py': CP},
+    'prefix3': {'proj/node.py': P3_NODE, 'proj/visitor.py': P3_VISITOR, 'proj/node_types.py': P3_TYPES},
 }
 IMPORTS = {
     'pair': {'proj/b.py': ['proj/a.py']},
-    'chain3': {'proj/b.py': ['proj/a.py'], 'proj/c.py': ['proj/b.py']},
-    'diamond4': {'proj/b.py': ['proj/a.py'], 'proj/c2.py': ['proj/a.py'], 'proj/d.py': ['proj/b.py', 'proj/c2.py']},
+    'chain3': {'proj/b.py': ['proj/a.py'], 'proj/bb.py': ['proj/b.py']},
+    'diamond4': {'proj/b.py': ['proj/a.py'], 'proj/ab.py': ['proj/a.py'], 'proj/d.py': ['proj/b.py', 'proj/ab.py']},
+    'chain3p': {'proj/a.py': ['proj/bb.py'], 'proj/b.py': ['proj/a.py']},
+    'prefix3': {'proj/node.py': ['proj/visitor.py'], 'proj/visitor.py': ['proj/node_types.py']},
 }
 
 
